@@ -512,11 +512,11 @@ async fn on_commitment_revocation(
                                 e.error,
                                 e.error_code
                             );
-                            plugin
-                                .state()
-                                .lock()
-                                .unwrap()
-                                .add_invalid_appointment(tower_id, &appointment);
+                            // The appointment may have been pending for this tower (if the revocation is notified more than once).
+                            // Add it first to invalid and remove it from pending later so a cascade delete is not triggered
+                            let mut state = plugin.state().lock().unwrap();
+                            state.add_invalid_appointment(tower_id, &appointment);
+                            state.remove_pending_appointment(tower_id, appointment.locator);
                         }
                     },
                     AddAppointmentError::SignatureError(proof) => {
